@@ -18,7 +18,7 @@ for g in dirs:
     for d in sorted(glob.glob(os.path.join(g, "C??-?"))):
         oid = os.path.basename(d)
         prop, n = oid.split("-")
-        sid = "%s-%d" % (prop, int(n) + 4)
+        sid = "%s-%d" % (prop, int(n) + int(os.environ.get("SEED_OFFSET", "4")))
         dst = os.path.join(VERIF, "seeded", sid)
         os.makedirs(dst, exist_ok=True)
         for f in ("patch.diff", "demo.rs", "demo.sh", "README.md"):
@@ -45,7 +45,7 @@ for g in dirs:
             det, exp = "undecided (exit 2, no alarm and no pass): " + what, "undecided"
         else:
             det, exp = "MISSED: the check passes with the change applied", "ok"
-        meta = {"id": sid, "property": prop, "round": 3, "needs_to_manifest": title,
+        meta = {"id": sid, "property": prop, "round": int(os.environ.get("SEED_ROUND", "3")), "needs_to_manifest": title,
                 "what_was_run": [confirmed, "tools/try_seeds.py (scratch copy of /repo with the change, the property's check)",
                                  "existing suite with the change applied: run by the authoring sub-agent (see README.md)"],
                 "detected": det, "expect": exp,
@@ -58,7 +58,7 @@ def cls(m):
     return "VIOLATION" if d.startswith("VIOLATION") or ("VIOLATION" in d and not d.startswith(("undecided", "MISSED"))) else ("undecided" if d.startswith("undecided") else "MISSED")
 nv = len([m for m in metas if cls(m) == "VIOLATION"]); nu = len([m for m in metas if cls(m) == "undecided"]); nm = len(metas) - nv - nu
 head = open(os.path.join(VERIF, "seeded", "README.md")).read().split("\n| id |")[0]
-head = re.sub(r"\n\d+ changes: .*\n", "\n%d changes (rounds 1 and 2: four per property; round 3: two more per property, deliberately subtle): %d reported as VIOLATION, %d undecided (exit 2: the change uses a construct or shape outside the modelled subset; no alarm, but no pass either), %d passing silently.\n" % (len(metas), nv, nu, nm), head)
+head = re.sub(r"\n\d+ changes[ :(][^\n]*\n", "\n%d changes (rounds 1 and 2: four per property; round 3: two more per property, deliberately subtle): %d reported as VIOLATION, %d undecided (exit 2: the change uses a construct or shape outside the modelled subset; no alarm, but no pass either), %d passing silently.\n" % (len(metas), nv, nu, nm), head)
 rows = ["| id | property | outcome now | needs, to manifest |", "|---|---|---|---|"]
 for m in metas:
     rows.append("| %s | %s | %s | %s |" % (m["id"], m["property"], cls(m), m.get("needs_to_manifest", "").replace("|", "\\|")))
